@@ -31,7 +31,9 @@ public:
     {
         using SpMat = typename ArgA::PlainObject;
         SpMat matA = A.template selfadjointView<UploA>();
-        SpMat matB = B.template selfadjointView<UploB>();
+        // B may have a different StorageIndex: expand in its own type, then convert
+        typename ArgB::PlainObject matBfull = B.template selfadjointView<UploB>();
+        SpMat matB = matBfull;
         SpMat mat = matA - sigma * matB;
         // SparseLU solver
         fac.isSymmetric(true);
